@@ -122,7 +122,8 @@ def run_weights(case):
     multi = [frozenset(c) for r in range(2, n + 1) for c in itertools.combinations(nm, r)]
 
     def covout(single_out, ones=()):
-        imp = ",".join("+".join(sorted(S)) + "=" + repr(BASE + (1.0 if S in ones else 0.0)) for S in multi) or None
+        # members are written in a different order for different combinations (the spelling order of an interaction must not matter)
+        imp = ",".join("+".join(sorted(S, reverse=bool(k % 2))) + "=" + repr(BASE + (1.0 if S in ones else 0.0)) for k, S in enumerate(multi)) or None
         return at.Covout("par", "pop", dict(single_out), cov_interaction=inter, imp_interaction=imp, baseline=BASE)
 
     base_co = covout(singles)
@@ -179,7 +180,7 @@ def run_table(case):
     progs = dict(zip(nm, table))
     multi = [c for r in range(2, n + 1) for c in itertools.combinations(nm, r)]
     explicit_vals = [BASE + 0.6, BASE - 0.4, BASE + 1.2, BASE + 0.1]
-    imp = ",".join("+".join(multi[i]) + "=" + repr(explicit_vals[j % 4]) for j, i in enumerate(impsel)) or None
+    imp = ",".join("+".join(multi[i] if j % 2 else tuple(reversed(multi[i]))) + "=" + repr(explicit_vals[j % 4]) for j, i in enumerate(impsel)) or None
     co = at.Covout("par", "pop", dict(progs), cov_interaction=inter, imp_interaction=imp, baseline=BASE)
     spec = dict(base=BASE, progs=progs, inter=inter, imp=imp)
     allvals = [BASE] + list(table) + [explicit_vals[j % 4] for j, _ in enumerate(impsel)]
